@@ -7,6 +7,7 @@ import (
 	"runtime/pprof"
 	"strconv"
 	"strings"
+	"sync/atomic"
 	"syscall"
 	"testing"
 	"testing/synctest"
@@ -19,6 +20,9 @@ import (
 var Base = time.Date(2030, 1, 1, 0, 0, 0, 0, time.UTC)
 
 type bubbleStop struct{}
+
+// progress counts started cases and shrink runs (read by the real-time watchdog).
+var progress atomic.Int64
 
 // bubbleTB is the rapid.TB used inside a synctest bubble: *testing.T cannot be
 // failed from inside a bubble that is never left.
@@ -35,11 +39,14 @@ func (b *bubbleTB) Logf(format string, args ...any) {
 		fmt.Fprintf(os.Stderr, format+"\n", args...)
 	}
 }
-func (b *bubbleTB) Log(args ...any)                   { b.Logf("%s", fmt.Sprint(args...)) }
-func (b *bubbleTB) Skipf(format string, args ...any)  { panic(bubbleStop{}) }
-func (b *bubbleTB) Skip(args ...any)                  { panic(bubbleStop{}) }
-func (b *bubbleTB) SkipNow()                          { panic(bubbleStop{}) }
-func (b *bubbleTB) Errorf(format string, args ...any) { b.failed = true; b.msgs = append(b.msgs, fmt.Sprintf(format, args...)) }
+func (b *bubbleTB) Log(args ...any)                  { b.Logf("%s", fmt.Sprint(args...)) }
+func (b *bubbleTB) Skipf(format string, args ...any) { panic(bubbleStop{}) }
+func (b *bubbleTB) Skip(args ...any)                 { panic(bubbleStop{}) }
+func (b *bubbleTB) SkipNow()                         { panic(bubbleStop{}) }
+func (b *bubbleTB) Errorf(format string, args ...any) {
+	b.failed = true
+	b.msgs = append(b.msgs, fmt.Sprintf(format, args...))
+}
 func (b *bubbleTB) Error(args ...any)                 { b.Errorf("%s", fmt.Sprint(args...)) }
 func (b *bubbleTB) Fatalf(format string, args ...any) { b.Errorf(format, args...); panic(bubbleStop{}) }
 func (b *bubbleTB) Fatal(args ...any)                 { b.Fatalf("%s", fmt.Sprint(args...)) }
@@ -81,6 +88,32 @@ func CheckBubble(tt *testing.T, property string, prop func(*T)) {
 			pprof.StartCPUProfile(f)
 		}
 	}
+	// Watchdog on the real clock (started outside the bubble): inside a bubble a goroutine that
+	// blocks non-durably for ever (a sync.WaitGroup.Wait that synctest does not recognise, a
+	// mutex held by a parked goroutine) stops simulated time and with it every case. Such a
+	// wedge is an artefact of the harness world, not a verdict: dump the stacks and leave with
+	// exit code 3; the driver runs the shard again.
+	limit := time.Duration(envInt("VT_WATCHDOG", 300)) * time.Second
+	go func() {
+		last, since := progress.Load(), time.Now()
+		for {
+			time.Sleep(5 * time.Second)
+			if cur := progress.Load(); cur != last {
+				last, since = cur, time.Now()
+				continue
+			}
+			if time.Since(since) > limit {
+				fmt.Printf("WEDGED: no progress for %v (case %d of %s)\n", limit, last, name)
+				if out := os.Getenv("VT_OUT"); out != "" {
+					if f, err := os.Create(out + ".wedged.txt"); err == nil {
+						pprof.Lookup("goroutine").WriteTo(f, 1)
+						f.Close()
+					}
+				}
+				syscall.Exit(3)
+			}
+		}
+	}()
 	synctest.Test(tt, func(tt *testing.T) {
 		time.Sleep(time.Until(Base))
 		st := NewStats(property, name)
@@ -100,6 +133,7 @@ func CheckBubble(tt *testing.T, property string, prop func(*T)) {
 			seenFail := false
 			var firstFail *T
 			for i := 0; i < cases && !seenFail; i++ {
+				progress.Add(1)
 				_ = flag.Set("rapid.seed", strconv.FormatUint(seed+uint64(i)*7919, 10))
 				tb := &bubbleTB{name: name}
 				func() {
